@@ -299,6 +299,15 @@ def final_checks(ctx: Ctx, m: Monitor, bio):
             for u in ref.map[v.name].bonds:
                 if res.has_atom(u) and not res.get_atom(u).added:
                     bonded_dist = max(bonded_dist, abs(dist(v.coords, res.get_atom(u).coords) - dist(ref.map[v.name].coords, ref.map[u].coords)))
+        # the peptide bonds to the neighbouring residues are bonds among input atoms too: their distortion (bond
+        # length N - C-1 / C - N+1, and the 1-3 distances CA - C-1 / CA - N+1, i.e. the angles at N and C) is part
+        # of "the distortion already present in the input" for whatever is fitted on those neighbours
+        for pseudo_name, other, own in (("C-1", getattr(res, "peptide_c", None), "N"), ("N+1", getattr(res, "peptide_n", None), "C")):
+            if other is None or getattr(other, "added", False) or pseudo_name not in ref.map:
+                continue
+            for u in (own, "CA"):
+                if res.has_atom(u) and not res.get_atom(u).added and u in ref.map:
+                    bonded_dist = max(bonded_dist, abs(dist(res.get_atom(u).coords, other.coords) - dist(ref.map[u].coords, ref.map[pseudo_name].coords)))
         # a hydrogen built by rotating an input hydrogen inherits that hydrogen's bond length: the
         # distortion among bonded input atoms (input hydrogens included) is part of the allowance
         tolres = min(max(tolres, bonded_dist + 1e-3), max(0.25, 2.0 * bonded_dist))
